@@ -361,7 +361,17 @@ def match_known(known, scenario, bad, events):
     return None
 
 
-MATCHERS = {}
+def _match_d21(k, scenario, bad, events):
+    """D21: the rejected event is the Distinct / GroupBy of a witness scenario (enum ToUpper with case variants)"""
+    if not str(scenario.get("note", "")).startswith("D21 witness"):
+        return False
+    steps = scenario.get("steps", [])
+    if len(steps) != 3 or steps[1].get("op") != "Apply" or steps[2].get("op") != k.get("op"):
+        return False
+    return all(b[1] == 3 and b[2] == "result" for b in bad)
+
+
+MATCHERS = {"d21": _match_d21}
 
 
 def extract_scenarios(tlc_out, path, prop, mc):
